@@ -1,7 +1,7 @@
 PROP = dict(
     properties="Properties/C03.v",
     harness_mods=["Harness/C03.v"],
-    runs=[dict(cmd="c03", quick=16, thorough=400), dict(cmd="c03seek", quick=30, thorough=1500)],
+    runs=[dict(cmd="c03", quick=16, thorough=400), dict(cmd="c03seek", quick=30, thorough=1500), dict(cmd="c03drop", quick=8, thorough=300)],
     trusted_base=[
         "hand-written Gallina model coq/StateRoot/Model.v of the block's change map and mpt.MapToMPTBatch (tied by correspondence: the batch the real function builds from every block's change set)",
         "the Go harness's flat range-query specification (harness/c03.go c03Range; the same definition is evaluated in Coq as sm_range on every 'seek' case) against which FindStates/SeekStates/GetState, mpt.TrieStore.Seek driven directly and the historic DAO Seek are compared",
